@@ -46,7 +46,7 @@ def concretise(sim, aop):
         if allflag:
             return [kind, t, None, xs[:size]]
         ms = sorted({s % size for s in masks})
-        return [kind, t, ms, xs[:len(ms)]] if ms else None
+        return [kind, t, ms, xs[:len(ms)]]        # ms may be empty: an empty subset, not "all coalitions"
     if kind in ("copy", "neg"):
         return [kind, t] if len(sim.objects) < 4 else None
     return [kind, t]
